@@ -9,6 +9,7 @@ from .ast import strip, callee_name, pp, int_value, type_is_pointer, REPO
 from .symbolic import FuncSym, Lin
 from .driver import RuleResult, Finding
 from .frontend import AnalysisBroken
+from .configs import _is_cache_global
 
 
 def pragma_text(node):
@@ -144,7 +145,7 @@ def rule_H1(ctx, prog, label, rule='H1'):
                         continue
                     for (r, part) in S.writes:
                         if r[0] == 'g':
-                            if r[1] in ('m4ri_mmc_cache', 'm4ri_mmc_free.j', 'mzd_cache', 'current_cache'):
+                            if _is_cache_global(r[1]):
                                 continue    # allocator: guarded by omp critical (rule G3)
                             problems.append('call `%s` writes the global %s' % (pp(n)[:50], r[1]))
                         elif r[0] == 'p' and r[1] < len(n.kids) - 1:
@@ -417,7 +418,7 @@ def rule_H2(ctx, prog, label, rule='H2'):
                         if r[0] == 'p' and r[1] < len(c.kids) - 1 and part in ('data', 'hdr'):
                             a = strip(c.kids[1 + r[1]], casts=True)
                             ws.add(pp(a))
-                        elif r[0] == 'g' and r[1] not in ('m4ri_mmc_cache', 'm4ri_mmc_free.j', 'mzd_cache', 'current_cache'):
+                        elif r[0] == 'g' and not _is_cache_global(r[1]):
                             ws.add('global:' + r[1])
                     # F7: C_xy <- A_x? * B_?y  positions
                     if cn in ('_mzd_addmul_even', '_mzd_mul_even', '_mzd_addmul', 'mzd_addmul', '_mzd_addmul_mp4', '_mzd_mul_mp4') and len(c.kids) >= 4:
